@@ -120,6 +120,26 @@ def upper(n: size, A: [R][n, n]):
             A[i, j] = 0.0
 
 @proc
+def inner_cp(n: size, dst: [R][n], src: [R][n]):
+    for i in seq(0, n):
+        dst[i] = src[i]
+
+@proc
+def outer_rows(n: size, m: size, D: R[n, m], S: R[n, m]):
+    for i in seq(0, n):
+        inner_cp(m, D[i, 0:m], S[i, 0:m])
+
+@proc
+def outer_cols(n: size, D: R[n, 8], S: R[n, 8]):
+    for j in seq(0, 8):
+        inner_cp(n, D[0:n, j], S[0:n, j])
+
+@proc
+def outer_half(n: size, D: R[2 * n], S: R[2 * n]):
+    inner_cp(n, D[0:n], S[n:2 * n])
+    inner_cp(n, D[n:2 * n], S[0:n])
+
+@proc
 def row_bcast(n: size, m: size, dst: [R][n, m], v: [R][m]):
     assert n >= 2
     for i in seq(0, n):
@@ -226,6 +246,31 @@ class KGen:
                 out.append(self.compose(off, sc, e))
         return f"{b}[{', '.join(out)}]"
 
+    def ve(self, e):
+        """a numeric call argument: a window of a formal, over the caller's buffer"""
+        L = self.L
+        if isinstance(e, L.Read) and e.idx:
+            return self.access(e.name, e.idx, True)
+        if isinstance(e, L.Read) and e.name in self.scal:
+            return self.scal[e.name]
+        if isinstance(e, L.WindowExpr) and e.name in self.tens:
+            b, pat = self.tens[e.name]
+            out = []
+            for p in pat:
+                if p[0] == "pt":
+                    out.append(p[1])
+                    continue
+                _, d, off, sc = p
+                if sc != 1:
+                    raise Skip("scaled window")
+                w = e.idx[d]
+                if isinstance(w, L.Point):
+                    out.append(self.compose(off, 1, self.ce(w.pt, True)))
+                else:
+                    out.append(f"{self.compose(off, 1, self.ce(w.lo, True))}:{self.compose(off, 1, self.ce(w.hi, True))}")
+            return f"{b}[{', '.join(out)}]"
+        raise Skip(f"view argument {type(e).__name__}")
+
     def de(self, e):
         L = self.L
         if isinstance(e, L.Read):
@@ -299,6 +344,11 @@ class KGen:
                     out += self.stmts(s.orelse, ind + 1)
             elif isinstance(s, L.Pass):
                 out.append(f"{pad}pass")
+            elif isinstance(s, L.Call):
+                args = []
+                for fa, a in zip(s.f.args, s.args):
+                    args.append(self.ve(a) if fa.type.is_numeric() else self.ce(a, True))
+                out.append(f"{pad}{s.f.name}({', '.join(args)})")
             elif isinstance(s, L.Alloc):
                 nm = f"t{len(self.local)}"
                 self.local[s.name] = nm
@@ -841,7 +891,12 @@ def candidates(exo):
     mod = exo_build.build_module(SUBSRC)
     for k, v in sorted(exo_build.procs_of(mod).items()):
         cands["sub." + k] = v
+    global KERNEL_HEADER
+    KERNEL_HEADER = exo_build.HEADER + f"from {mod.__name__} import *\n"
     return cands
+
+
+KERNEL_HEADER = exo_build.HEADER
 
 
 def run_case(chk, ctx, exo, cands, cname, mut, idx, replay_src=None):
@@ -859,7 +914,7 @@ def run_case(chk, ctx, exo, cands, cname, mut, idx, replay_src=None):
     else:
         k = replay_src
     try:
-        mod = exo_build.build_module(k["src"])
+        mod = exo_build.build_module(k["src"], KERNEL_HEADER)
         p = exo_build.procs_of(mod)[kname]
     except BaseException as e:
         if isinstance(e, (KeyboardInterrupt, SystemExit, MemoryError)):
@@ -1026,8 +1081,18 @@ def make_jobs(ctx, exo, cands, names):
             jobs += [(c, m) for c in pool[:max(k, len(pick))]]
             continue
         jobs += [(c, m) for c in pool[:k]]
-    rng.shuffle(jobs)
-    return jobs
+    # near misses and plain instances alternate, so that a short run still sees every kind
+    plain = [j for j in jobs if j[1] is None]
+    muts = [j for j in jobs if j[1] is not None]
+    rng.shuffle(plain)
+    rng.shuffle(muts)
+    out = []
+    while plain or muts:
+        if muts:
+            out.append(muts.pop())
+        if plain:
+            out.append(plain.pop())
+    return out
 
 
 # F13 of DESIGN.md, verbatim
@@ -1043,8 +1108,8 @@ def f13(n: size, a: f32[4, n], b: f32[4]):
 def run(ctx):
     from common import import_exo
     exo = import_exo()
-    ctx.rule = ("a case = (candidate callee: every instruction of exo.platforms.x86 and 16 generated sub-procedures "
-                "with window / size / index / bool arguments and assertions; a kernel printed from the callee's own "
+    ctx.rule = ("a case = (candidate callee: every instruction of exo.platforms.x86 and 20 generated sub-procedures "
+                "with window / size / index / bool arguments, assertions and nested calls; a kernel printed from the callee's own "
                 "body over caller buffers with random offsets, extra point dimensions, permuted dimensions, window-typed "
                 "or dense caller buffers, 0-2 enclosing loops; optionally one mutation making it a near miss) x "
                 "(replace with the candidate and two other candidates, replace_all / call_site_mem_aware_replace); "
